@@ -455,6 +455,24 @@ def run_case(case):
                             po = None if dprev is None else dprev.outputs.get("transform")
                             if po is not None and (numpy.asarray(po).shape != numpy.asarray(rec_i).shape or not numpy.array_equal(numpy.asarray(po), numpy.asarray(rec_i))):
                                 bad("consecutive steps do not chain", mcond, "%s -> %s.%s %s" % (type(pipe.steps[-2][1]).__name__, type(obj_).__name__, mm, desc))
+            # a deep copy of the instrumented pipeline, called on another batch: each of the two objects holds ITS last input / output
+            import copy as _copy
+            try:
+                twin = _copy.deepcopy(pipe)
+                P2 = P[:max(2, len(P) // 2)] if not hasattr(P, "iloc") else P.iloc[:max(2, len(P) // 2)]
+                for mm in before:
+                    getattr(twin, mm)(P2)
+                    if isinstance(pipe, Pipeline) and not isinstance(pipe.steps[-1][1], str):
+                        for who, obj_, want_rows in (("the original", pipe, len(P)), ("the deep copy", twin, len(P2))):
+                            for part, o_ in (("pipeline", obj_), ("final step", obj_.steps[-1][1])):
+                                dbg = getattr(o_, "_debug", None)
+                                rec_i = None if dbg is None else dbg.inputs.get(mm)
+                                rec_o = None if dbg is None else dbg.outputs.get(mm)
+                                if rec_i is None or rec_o is None or len(rec_i) != want_rows or len(rec_o) != want_rows:
+                                    bad("after a deep copy was called, %s does not hold its own last input/output" % who, cond,
+                                        "%s %s.%s: recorded %r rows, it last received %d %s" % (part, type(o_).__name__, mm, None if rec_i is None else len(rec_i), want_rows, desc))
+            except Exception as ex:
+                bad("deep copy of an instrumented pipeline raises %s" % type(ex).__name__, cond, "%s %s" % (str(ex)[:200], desc))
             for est in _executed(pipe):
                 dbg = getattr(est, "_debug", None)
                 if dbg is None or not dbg.inputs or set(dbg.inputs) != set(dbg.outputs):
